@@ -45,7 +45,7 @@ var propConfigs = map[string]propConfig{
 	"C10": {Gen: true, Bounded: []boundedCheck{{Name: "failing-source", Run: "TestReplayC10", Module: true,
 		Bound: "source failing at its k-th Read/Seek for every k the read performs (k < 5000), three codecs, a 9-record two-row-group file of the Rec shape with page size 3: an error is reported or every delivered row is correct"}}},
 	"C12": {Gen: true, Bounded: []boundedCheck{{Name: "page-statistics", Run: "TestReplayC12", Module: true,
-		Bound: "60 seeded record sets of the Rec shape (extreme, negative, NaN, empty, reserved-looking and long strings with long common prefixes injected), varying page sizes, uncompressed; columns checked: name (string, optional), id (int64), count (uint32, unsigned order), amount (int32), ratio (optional float64): null_count, min and max of every page header recomputed independently from the records"}}},
+		Bound: "60 seeded record sets of the Rec shape (extreme, negative, NaN, empty, reserved-looking and long strings with long common prefixes injected), varying page sizes, one to three row groups per file, uncompressed; columns checked: name (string, optional), id (int64), count (uint32, unsigned order), amount (int32), ratio (optional float64): null_count, min and max of every page header recomputed independently from the records, min/max absent on pages without a value"}}},
 	"C08": {Gen: true, Bounded: []boundedCheck{{Name: "fragmented-reads", Run: "TestReplayC08", Module: true,
 		Bound: "an 11-record two-row-group file of the Rec shape per codec read through sources returning at most 1, 2, 3, 7, 64 bytes per call, five seeded random short-read patterns and data together with io.EOF: same records, no error"}}},
 	"C11": {Gen: true, Bounded: []boundedCheck{{Name: "every-prefix", Run: "TestReplayC11", Module: true,
